@@ -457,7 +457,9 @@ Definition o2_init : o2 := mkO2 [] [] [] [] [] [] false [] false.
 Definition o2_fail (o : o2) : o2 :=
   mkO2 (b_begun o) (b_snap o) (b_ok o) (b_rej o) (b_ended o) (b_handled o) (b_exited o) (b_wrong o) true.
 
-Definition o2_step (o : o2) (e : ev) : o2 :=
+(* rt = false skips the real-time-order clause (cubic in the log length; long-backlog logs use the
+   remaining clauses only - a weaker check, accepted whenever the full one is) *)
+Definition o2_step (rt : bool) (o : o2) (e : ev) : o2 :=
   match e with
   | EBegin i w =>
       if mem i (b_begun o) then o2_fail o
@@ -483,7 +485,7 @@ Definition o2_step (o : o2) (e : ev) : o2 :=
   | EHandle i =>
       if mem i (b_handled o) || mem i (b_rej o) || negb (mem i (b_begun o)) || b_exited o
          || mem i (b_wrong o)
-         || negb (subset (snap_of i (b_snap o)) (b_handled o))
+         || (if rt then negb (subset (snap_of i (b_snap o)) (b_handled o)) else false)
       then o2_fail o
       else mkO2 (b_begun o) (b_snap o) (b_ok o) (b_rej o) (b_ended o) (i :: b_handled o)
                 (b_exited o) (b_wrong o) (b_bad o)
@@ -492,9 +494,11 @@ Definition o2_step (o : o2) (e : ev) : o2 :=
   | _ => o
   end.
 
-Definition check_C02 (alive_idle : bool) (l : list ev) : bool :=
-  let o := fold_left o2_step l o2_init in
+Definition check_C02_gen (rt alive_idle : bool) (l : list ev) : bool :=
+  let o := fold_left (o2_step rt) l o2_init in
   negb (b_bad o) && (if alive_idle then subset (b_ok o) (b_handled o) else true).
+Definition check_C02 : bool -> list ev -> bool := check_C02_gen true.
+Definition check_C02_lite : bool -> list ev -> bool := check_C02_gen false.
 
 (* C07: sends begun after a drain returned get their message back; at most one exit; a
    Drained exit only after every Ok send was handled; and, when every call has returned
@@ -535,6 +539,14 @@ Definition o7_step (o : o7) (e : ev) : o7 :=
 
 Definition only_drained (l : list reason) : bool :=
   match l with [r] => reason_drained r | _ => false end.
+
+(* repeated / late drains are harmless also for the lifecycle status: once the terminal event has been
+   published the status observed afterwards is Stopped (rank 6), whatever drains were issued since *)
+Definition check_status (l : list ev) (st : nat) : bool :=
+  match d_exits (fold_left o7_step l o7_init) with
+  | [] => true
+  | _ => 6 <=? st
+  end.
 
 Definition check_C07 (compl : bool) (l : list ev) : bool :=
   let o := fold_left o7_step l o7_init in
